@@ -6,4 +6,4 @@ def run(ctx):
     run_kernel(ctx, "C01", [
         dict(profile="core", kind="poly", traces=(96, 1600), ops=40, queries=34),
         dict(profile="core", kind="tet", traces=(32, 400), ops=40, queries=34),
-    ], level_when_proved="other")
+    ], level_when_proved="other", extra_props=("C01Reach",))
